@@ -286,7 +286,11 @@ func (s Set) matchVersion(v *Version, includePrerelease bool) bool {
 			// dev (it doesn't seem to matter which is which).
 			if !pre && (v.IsPrerelease() || v.isPyPIDev()) {
 				anyPre := span.min.IsPrerelease() || span.max.IsPrerelease()
-				anyDev := span.min.isPyPIDev() || span.max.isPyPIDev()
+				// The synthetic minimum that stands in for a missing
+				// lower bound (as in <1.0 or <=1.0) is a dev release only
+				// so that it sorts below everything; the user did not
+				// write it and it must not turn on dev/prerelease matching.
+				anyDev := (span.min.isPyPIDev() && !span.min.isPyPIMin()) || span.max.isPyPIDev()
 				if !(anyPre || anyDev) {
 					continue
 				}
